@@ -26,6 +26,7 @@ CONSTANTS
   StopChan = "once"
   MaxU = 2
   ExhaustionReturnsLast = TRUE
+  ReturnedIdReleased = FALSE
   WithLapse = FALSE
   Emit = FALSE
 INIT Init
